@@ -388,14 +388,6 @@ def diffElem (name : String) : Tree :=
 def diffElems : List (Nat × Tree) :=
   ["insert", "delete", "replace"].map fun n => (diffElemId n, diffElem n)
 
-/-- `PlaceholderMaker.__init__`: close then open placeholder for insert, delete, replace. -/
-def phInit (textTags fmtTags : List Str) : PhSt :=
-  let st0 : PhSt := { table := [], counter := phStart, heap := [], textTags := textTags, formattingTags := fmtTags }
-  ["insert", "delete", "replace"].foldl (fun st n =>
-    let (c, st1) := getPlaceholder st (diffElem n) .close none
-    let (_, st2) := getPlaceholder st1 (diffElem n) .open (some c)
-    st2) st0
-
 def decStrList (s : String) : List Str := ((s.splitOn "|").filter (· ≠ "")).map decStr!
 
 def showRole : Role → String
